@@ -15,6 +15,7 @@ import itertools
 import os
 import random
 import shutil
+import zlib
 
 import numpy as np
 
@@ -60,6 +61,13 @@ def invoke(obj, name, kw, model):
     if name.startswith("attr:"):
         return getattr(obj, name[5:])
     pos = kw.get("@pos", 0)
+    # some "deterministic" queries draw tie-breaking noise from numpy's global
+    # RNG (CouplingAnalysis' nearest-neighbour estimators): every invocation
+    # of a query pattern starts from the same RNG state, so equal calls on
+    # equal objects are comparable
+    rs = zlib.crc32(qkey(name, kw).encode()) & 0x7fffffff
+    np.random.seed(rs)
+    random.seed(rs)
     args = {k: (getattr(type(obj), v[8:]) if isinstance(v, str)
                 and v.startswith("@static:") else resolve_arg(v, model))
             for k, v in kw.items() if not k.startswith("@")}
